@@ -33,6 +33,9 @@ type HarnessGroup struct {
 	ExtraInterp  []string                  `json:"extra_interp"`
 	RewritePkgs  []string                  `json:"rewrite_pkgs"`
 	NativeEnv    bool                      `json:"native_env"`
+	// with native_env: external callees whose call sites are still bound to their stub in
+	// the native replay (the stub's native variant wraps the real call)
+	NativeCallsites []string `json:"native_callsites"`
 }
 
 type CheckSpec struct {
@@ -56,17 +59,18 @@ type KnownFinding struct {
 }
 
 type ReplayFile struct {
-	Property    string            `json:"property"`
-	Harness     string            `json:"harness"`
-	Package     string            `json:"package"`
-	Sets        []string          `json:"sets"`
-	Redirects   string            `json:"redirects"`
-	Params      map[string]int    `json:"params"`
-	Assignment  map[string]uint64 `json:"assignment"`
-	RewritePkgs []string          `json:"rewrite_pkgs"`
-	NativeEnv   bool              `json:"native_env"`
-	Fallbacks   []string          `json:"fallbacks,omitempty"` // overlay targets replaced by their fallback variant
-	Expect      struct {
+	Property        string            `json:"property"`
+	Harness         string            `json:"harness"`
+	Package         string            `json:"package"`
+	Sets            []string          `json:"sets"`
+	Redirects       string            `json:"redirects"`
+	Params          map[string]int    `json:"params"`
+	Assignment      map[string]uint64 `json:"assignment"`
+	RewritePkgs     []string          `json:"rewrite_pkgs"`
+	NativeEnv       bool              `json:"native_env"`
+	NativeCallsites []string          `json:"native_callsites,omitempty"`
+	Fallbacks       []string          `json:"fallbacks,omitempty"` // overlay targets replaced by their fallback variant
+	Expect          struct {
 		Kind string `json:"kind"`
 		ID   string `json:"id"`
 		Msg  string `json:"msg"`
@@ -269,7 +273,7 @@ func cmdCheck(args []string) int {
 			}
 			g := spec.Groups[res.groupIdx]
 			rf := ReplayFile{Property: prop, Harness: res.Harness, Package: res.Package, Sets: g.Sets, Redirects: g.Redirects,
-				Params: res.Params, Assignment: v.Assignment, RewritePkgs: g.RewritePkgs, NativeEnv: g.NativeEnv}
+				Params: res.Params, Assignment: v.Assignment, RewritePkgs: g.RewritePkgs, NativeEnv: g.NativeEnv, NativeCallsites: g.NativeCallsites}
 			for rt := range useFallbacks {
 				rf.Fallbacks = append(rf.Fallbacks, rt)
 			}
